@@ -1171,6 +1171,36 @@ func runE2E(w *casefile.Writer, r *rng.R, tier string) {
 	}
 	defer os.RemoveAll(tmp)
 
+	// phase 1: chains of seals in one manager (see e2e_chain.go); few allocations besides, so that the
+	// pooled writers of one seal are really reused by the next
+	nchains := 8
+	if thorough {
+		nchains = 48
+	}
+	chainSeeds := make([]uint64, nchains)
+	for i := range chainSeeds {
+		chainSeeds[i] = r.U64()
+	}
+	chainRes := make([]eresult, nchains)
+	{
+		var wg sync.WaitGroup
+		next := make(chan int, nchains)
+		for i := range chainSeeds {
+			next <- i
+		}
+		close(next)
+		for k := 0; k < 3; k++ {
+			wg.Add(1)
+			go func() {
+				defer wg.Done()
+				for i := range next {
+					chainRes[i] = eRunChain(tmp, i, chainSeeds[i])
+				}
+			}()
+		}
+		wg.Wait()
+	}
+
 	results := make([]eresult, len(jobs))
 	var wg sync.WaitGroup
 	next := make(chan int, len(jobs))
@@ -1196,7 +1226,7 @@ func runE2E(w *casefile.Writer, r *rng.R, tier string) {
 		}()
 	}
 	wg.Wait()
-	for _, res := range results { // single goroutine, eCorpus order: deterministic output
+	for _, res := range append(chainRes, results...) { // single goroutine, eCorpus order: deterministic output
 		for _, k := range res.counts {
 			w.Count(k)
 		}
